@@ -235,9 +235,21 @@ def work(t):
     if len(outsD[d]) != len(ref):
       P.results.append(dict(name=f'{tag}|device {d}: same number of output leaves', kind='core', queries=0, status='sat'))
       continue
-    A = np.concatenate([toobj(x).reshape(-1) for x in outsD[d]])
-    B = np.concatenate([toobj(x).reshape(-1) for x in ref])
-    P.equal(f'{tag}|device {d}: all {len(ref)} output leaves (updates and new state) equal the single-device run', A, B, rng)
+    # leaf by leaf (stop at the first leaf that is not proved equal: the pmap replay arbitrates)
+    bad = None
+    nq = 0
+    for li, (xa, xb) in enumerate(zip(outsD[d], ref)):
+      sub = Prover(timeout_s=15, first_s=3.0)
+      r_ = sub.equal(f'leaf {li}', toobj(xa).reshape(-1), toobj(xb).reshape(-1), rng)
+      nq += sub.queries
+      P.queries += sub.queries
+      P.solver_s += sub.solver_s
+      if not r_.ok:
+        bad = (li, r_['status'])
+        break
+    P.results.append(dict(name=f'{tag}|device {d}: all {len(ref)} output leaves (updates and new state) equal the single-device run',
+                          status='unsat' if bad is None else 'sat', kind='core', queries=nq, cases=len(ref),
+                          note='' if bad is None else f'output leaf {bad[0]} not proved equal ({bad[1]})'))
   P.reach(f'{tag}|twin: assumptions satisfiable', rng, [zl(leaves[0].reshape(-1)[0]) != 0])
   res, viol = [], []
   confirmed = None
